@@ -53,6 +53,18 @@ def named_selection(t: T, name: str):
     return None
 
 
+def _nt_fields(repo: Repo, modname: str, name: str):
+    import ast
+    from .. import consteval
+    node = repo.constant(modname, name)
+    if not (isinstance(node, ast.Call) and len(node.args) >= 2):
+        raise AnalysisError(f"{name} is not a namedtuple(...) call")
+    v = consteval.evaluate(repo, repo.module(modname), node.args[1])
+    if isinstance(v, str):
+        v = v.replace(",", " ").split()
+    return list(v)
+
+
 def check(repo: Repo, run: Run) -> None:
     interp = sym.Interp(repo)
     cp = repo.cls("callstacks_parser", "CallstacksParser")
@@ -114,27 +126,62 @@ def check(repo: Repo, run: Run) -> None:
         raise AnalysisError("feed_generator: the loop over the trace stream was not found")
     trace = outer[0].target
     frames_src = T("attr", (trace, "cs_frames"))
-    floops = [lr for lr in rec.loops.values() if lr.kind == "for" and lr.iter == frames_src]
-    run.ob("R4", MOD, "CallstacksParser.feed_generator", "one pass over the sampled frames in order", len(floops) == 1,
-           "feed_generator does not iterate over trace.cs_frames exactly once, in order", line=fg.lineno)
-    if len(floops) != 1:
-        return
-    fl = floops[0]
-    frame = fl.target
     FRAME = T("global", (f"{MOD}.Frame",))
-    apps = [e for e in rec.effects if e.kind == "mut-call" and e.key == "append" and fl.id in e.loops and e.args
-            and e.args[0].op == "call" and e.args[0].a[0] == FRAME]
-    hit = [e for e in apps if e.args[0].a[1] and e.args[0].a[1][1:] != (const(None), const(None))]
-    miss = [e for e in apps if e.args[0].a[1][1:] == (const(None), const(None))]
+    ffields = _nt_fields(repo, "callstacks_parser", "Frame")
+
+    def frame_args(call: T):
+        d = dict(zip(ffields, call.a[1]))
+        d.update(dict(call.a[2]))
+        return tuple(d.get(k) for k in ("address", "uuid", "offset"))
+
+    # per-frame attribution as a list of (conditions, Frame arguments), from either an explicit loop with appends or a
+    # comprehension over the sampled frames
+    frame = None
+    cases = []
+    floops = [lr for lr in rec.loops.values() if lr.kind == "for" and lr.iter == frames_src]
+    comps = [lr for lr in rec.loops.values() if lr.kind == "comp" and lr.term is not None and len(lr.term.a[2]) == 1
+             and lr.term.a[2][0][1] == frames_src and lr.term.a[0] == "list" and not lr.term.a[2][0][2]]
+    one_pass = False
+    if len(floops) == 1 and not comps:
+        fl = floops[0]
+        frame = fl.target
+        base_pc = None
+        for e in rec.effects:
+            if e.kind == "mut-call" and e.key == "append" and fl.id in e.loops and e.args and e.args[0].op == "call" \
+                    and e.args[0].a[0] == FRAME:
+                cases.append((e.pc, frame_args(e.args[0]), e.lineno))
+        if cases:
+            common = [c for c in cases[0][0] if all(c in k[0] for k in cases)]
+            cases = [([c for c in pc if c not in common], fa, ln) for pc, fa, ln in cases]
+        one_pass = True
+    elif len(comps) == 1 and not floops:
+        comp = comps[0].term
+        frame = comp.a[2][0][0]
+
+        def unfold(t, pc):
+            if t.op == "ite":
+                unfold(t.a[1], pc + [(t.a[0], True)])
+                unfold(t.a[2], pc + [(t.a[0], False)])
+            elif t.op == "call" and t.a[0] == FRAME:
+                cases.append((pc, frame_args(t), comps[0].lineno))
+        unfold(comp.a[1], [])
+        one_pass = True
+    run.ob("R4", MOD, "CallstacksParser.feed_generator", "one pass over the sampled frames in order", one_pass,
+           "feed_generator does not build the frames by one loop / comprehension over trace.cs_frames, in order", line=fg.lineno)
+    if not one_pass:
+        return
+    hit = [k for k in cases if k[1][1:] != (const(None), const(None))]
+    miss = [k for k in cases if k[1][1:] == (const(None), const(None))]
     ok_shape = len(hit) == 1 and len(miss) == 1
     run.ob("R2", MOD, "CallstacksParser.feed_generator", "each frame appended once: attributed or unattributed", ok_shape,
-           f"{len(hit)} attributed and {len(miss)} unattributed Frame appends per frame (expected one of each, on complementary paths)",
-           line=fg.lineno)
+           f"{len(hit)} attributed and {len(miss)} unattributed Frame constructions per frame (expected one of each, on "
+           f"complementary paths)", line=fg.lineno)
     if ok_shape:
-        fa = hit[0].args[0].a[1]
+        fa = hit[0][1]
         idx_terms = set()
-        ok_uuid = fa[1].op == "sub" and fa[1].a[0] == UUIDS
-        ok_off = fa[2].op == "bin" and fa[2].a[0] == "-" and fa[2].a[1] == frame and fa[2].a[2].op == "sub" and fa[2].a[2].a[0] == ADDRS
+        ok_uuid = fa[1] is not None and fa[1].op == "sub" and fa[1].a[0] == UUIDS
+        ok_off = fa[2] is not None and fa[2].op == "bin" and fa[2].a[0] == "-" and fa[2].a[1] == frame \
+            and fa[2].a[2].op == "sub" and fa[2].a[2].a[0] == ADDRS
         if ok_uuid:
             idx_terms.add(fa[1].a[1])
         if ok_off:
@@ -142,7 +189,7 @@ def check(repo: Repo, run: Run) -> None:
         same = ok_uuid and ok_off and len(idx_terms) == 1 and fa[0] == frame
         run.ob("R2", MOD, "CallstacksParser.feed_generator", "identity and base address read at the same index; offset = frame - base", same,
                "" if same else "the attributed Frame is not Frame(frame, uuids[i], frame - addresses[i]) with one index i",
-               facts={"frame": [sym.pretty(x)[:80] for x in fa]}, line=hit[0].lineno)
+               facts={"frame": [sym.pretty(x)[:80] if x is not None else None for x in fa]}, line=hit[0][2])
         if same:
             idx = idx_terms.pop()
             inner = idx.a[1] if idx.op == "bin" and idx.a[0] == "-" and idx.a[2] == const(1) else None
@@ -154,12 +201,11 @@ def check(repo: Repo, run: Run) -> None:
                                    "previous image (or to none)" if fr_l == frame else
                                    f"the index is {sym.pretty(idx)[:80]}, not bisect/bisect_right(addresses, frame) - 1: frames are "
                                    f"attributed to the image above them or out of range"),
-                   facts={"index": sym.pretty(idx)[:100]}, line=hit[0].lineno,
+                   facts={"index": sym.pretty(idx)[:100]}, line=hit[0][2],
                    witness="a frame exactly equal to an image's load address / a frame above the highest image")
-            # guard index > -1
-            conds = [c for c in hit[0].pc if c not in miss[0].pc]
+            # guard: the attributed construction happens only when index >= 0
             okg = False
-            for c, pol in conds:
+            for c, pol in hit[0][0]:
                 atom, apol = render.norm_bool(c)
                 eff = pol if apol else not pol
                 if atom.op == "cmp" and atom.a[1] == idx and atom.a[2].op == "const":
@@ -170,18 +216,22 @@ def check(repo: Repo, run: Run) -> None:
                         okg = True
             run.ob("R2", MOD, "CallstacksParser.feed_generator", "attribution only when an image at or below the frame exists", okg,
                    "the attributed branch is not guarded by index > -1 / >= 0: with no image below the frame, index -1 reads the LAST "
-                   "image and yields a negative offset", line=hit[0].lineno)
-            comp = [c for c in miss[0].pc if c not in hit[0].pc]
+                   "image and yields a negative offset", line=hit[0][2])
             run.ob("R2", MOD, "CallstacksParser.feed_generator", "unattributed frames keep their address, no image",
-                   miss[0].args[0].a[1][0] == frame and len(comp) == len(conds),
+                   miss[0][1][0] == frame and len(miss[0][0]) == len(hit[0][0]),
                    "the unattributed Frame is not Frame(frame, None, None) on the complementary path", nontrivial=False)
+    fl_ids = {lr.id for lr in floops} | {lr.id for lr in comps}
     # R4 stamp and yield
     ys = [r for r in rec.returns if r.kind == "yield"]
     CS = T("global", (f"{MOD}.Callstack",))
     first = T("sub", (T("attr", (trace, "ktraces")), const(0)))
-    ok = len(ys) == 1 and ys[0].value.op == "call" and ys[0].value.a[0] == CS and len(ys[0].value.a[1]) == 3 \
-        and ys[0].value.a[1][0] == T("attr", (first, "timestamp")) and ys[0].value.a[1][1] == T("attr", (first, "tid")) \
-        and fl.id not in ys[0].loops
+    cfields = _nt_fields(repo, "callstacks_parser", "Callstack")
+    ok = False
+    if len(ys) == 1 and ys[0].value.op == "call" and ys[0].value.a[0] == CS:
+        d = dict(zip(cfields, ys[0].value.a[1]))
+        d.update(dict(ys[0].value.a[2]))
+        ok = d.get("timestamp") == T("attr", (first, "timestamp")) and d.get("tid") == T("attr", (first, "tid")) \
+            and not (set(ys[0].loops) & fl_ids) and len(d) == 3
     run.ob("R4", MOD, "CallstacksParser.feed_generator", "one Callstack per sample, stamped with the START record", ok,
            "feed_generator does not yield exactly one Callstack(ktraces[0].timestamp, ktraces[0].tid, frames) per qualifying trace",
            facts={"yield": sym.pretty(ys[0].value)[:160] if ys else None}, line=fg.lineno)
@@ -209,7 +259,9 @@ def check(repo: Repo, run: Run) -> None:
         raise AnalysisError("anchor vanished: PERF_Event decoder")
     d = D.decode(ent[0])
     f = dict(d.ret.a[1]) if d.ret.op == "new" else {}
-    cs = f.get("cs_frames")
+    from .. import normal
+    cs = normal.normalise(d.rec, f.get("cs_frames"))
+    f["sample_what"] = normal.normalise(d.rec, f.get("sample_what"))
     PM = ent[0].module.name
     if cs is None:
         raise AnalysisError("PERF_Event decoder result has no cs_frames")
